@@ -54,15 +54,15 @@ def shards(tier, seed):
     for i in range(4):
         out.append({"name": "frets-%d" % i, "kind": "frets", "part": i, "parts": 4, "weight": 6})
     out.append({"name": "lookup", "kind": "lookup", "weight": 3})
-    n = 1500 if tier == "quick" else 40000
-    parts = 4 if tier == "quick" else 16
+    n = 4000 if tier == "quick" else 40000
+    parts = 8 if tier == "quick" else 16
     for i in range(parts):
         out.append({"name": "fingerings-%d" % i, "kind": "fingering", "n": n // parts, "weight": 6})
     parts = 8 if tier == "quick" else 16
     for i in range(parts):
         out.append({"name": "chord-fingerings-%d" % i, "kind": "chordfing", "part": i, "parts": parts, "tier": tier, "weight": 9})
-    n = 2000 if tier == "quick" else 60000
-    parts = 6 if tier == "quick" else 16
+    n = 4800 if tier == "quick" else 60000
+    parts = 8 if tier == "quick" else 16
     for i in range(parts):
         out.append({"name": "tabs-%d" % i, "kind": "tab", "n": n // parts, "weight": 8})
     return out
